@@ -493,6 +493,7 @@ class UpdateBase(
 
 
         """
+        self._copy_dialect_options()
         self._validate_dialect_kwargs(opt)
         return self
 
